@@ -59,27 +59,30 @@ Section Generic.
     step P cf st (ERead c d1 w1) = step P cf st (ERead c d2 w2).
   Proof. exact (same_outcome_same_step P cf). Qed.
 
-  (* 3. Isolation, full statement: for every history h1, every hostile chunk d that
-        makes c's stream invalid and every continuation h2 (in which the identity c is
+  (* 3. Isolation, byte level, unconditional: for every history h1, every hostile chunk d
+        that makes c's stream invalid and every continuation h2 (in which the identity c is
         not given to a new connection), the bus ends in the same state and has produced
         the same outputs — to everybody — as in the history in which c sent only the
-        valid message prefix of d and then disconnected. *)
-  Definition C10_isolation_full_statement : Prop :=
-    forall (k : S) h1 c d w x h2,
+        valid message prefix of d and then disconnected.  ("The valid prefix of d can be
+        loaded on its own" rests on Proofs/LoadLocal.v: locality of load_message under the
+        framing decision of have_message; the earlier hypothesis load_local was refuted
+        there and is not used any more.) *)
+  Theorem C10_isolation_bytes : forall (k : S) h1 c d w x h2,
       let st := fst (run P cf (init k) h1) in
       find_conn (s_conns st) c = Some x -> c_phase x = PMsg ->
       l_corrupted (feed (c_loader x) d 0) = true -> no_accept c h2 ->
       run P cf (init k) (h1 ++ ERead c d w :: h2) =
       run P cf (init k) (h1 ++ ERead c (valid_prefix (c_loader x) d) w :: EEof c :: strip c h2).
+  Proof. exact (isolation P cf). Qed.
 
-  (*    Proved GIVEN locality of load_message ([load_local], the hypothesis of C11's
-        chunking theorem: the verdict on a complete message does not depend on the bytes
-        that follow it), which is what makes "the valid prefix of d" loadable on its own;
-        load_local is tied to the code by the C11/C01 correspondence runs. *)
-  Theorem C10_isolation_partial : load_local -> C10_isolation_full_statement.
-  Proof. intros H k h1 c d w x h2. exact (isolation P cf H k h1 c d w x h2). Qed.
+  (*    what "valid prefix" means: a prefix of d after which the loader has produced the same
+        messages and is not corrupted *)
+  Theorem C10_valid_prefix : forall l d, at_rest l ->
+    (exists rest, d = valid_prefix l d ++ rest) /\
+    l_msgs (feed l (valid_prefix l d) 0) = l_msgs (feed l d 0) /\ l_corrupted (feed l (valid_prefix l d) 0) = false.
+  Proof. intros l d H. split; [apply valid_prefix_is_prefix | apply valid_prefix_feed; exact H]. Qed.
 
-  (*    Unconditional, message-level form: on every history the model's outputs and
+  (*    Message-level form: on every history the model's outputs and
         final state are those of the ideal bus of Spec/RobustSpec.v, whose inputs are
         messages (plus, at most, the bare fact "this stream is no longer valid"). *)
   Theorem C10_isolation : forall (k : S) h,
@@ -128,7 +131,8 @@ Print Assumptions C10_invalid_disconnects_sender_only.
 Print Assumptions C10_invalid_sender_gone_others_untouched.
 Print Assumptions C10_nothing_after_corruption.
 Print Assumptions C10_invalid_bytes_invisible.
-Print Assumptions C10_isolation_partial.
+Print Assumptions C10_isolation_bytes.
+Print Assumptions C10_valid_prefix.
 Print Assumptions C10_isolation.
 Print Assumptions C10_preauth_silent.
 Print Assumptions C10_incomplete_bounded.
